@@ -8,6 +8,7 @@ import (
 	"net"
 	"sync"
 	"testing"
+	"time"
 
 	netty "github.com/go-netty/go-netty"
 	"pgregory.net/rapid"
@@ -24,6 +25,8 @@ type C05Spec struct {
 	CloseInActive string `json:"close_in_active,omitempty"` // error kind, "" = no close
 	CloseInRead   int    `json:"close_in_read,omitempty"`   // close from inside the k-th read delivery (0 = never)
 	CloseInEvent  bool   `json:"close_in_event,omitempty"`  // close from inside HandleEvent
+	// Idle: the shipped read-idle and write-idle handlers (one hour) sit between the probe and the recorders
+	Idle bool `json:"idle,omitempty"`
 	// Stress > 0: no scheduler; this many real goroutines call Close at the same moment, Rounds times
 	Stress int `json:"stress,omitempty"`
 	Rounds int `json:"rounds,omitempty"`
@@ -118,6 +121,7 @@ func genC05(t *rapid.T) E1Case {
 		spec.CloseInRead = rapid.IntRange(1, 3).Draw(t, "cirk")
 	}
 	spec.CloseInEvent = rapid.IntRange(0, 3).Draw(t, "cie") == 0
+	spec.Idle = rapid.IntRange(0, 2).Draw(t, "idle") == 0
 	// closers with distinct errors
 	kinds := []string{"sentinel", "wrapped", "nil", "eof", "neterr", "wrapped-neterr", "timeout", "deadline", "os-deadline", "wrapped-errclosed"}
 	nc := rapid.IntRange(0, 4).Draw(t, "closers")
@@ -254,7 +258,14 @@ func runC05(c E1Case) (out core.Outcome) {
 	if c.C05 != nil && c.C05.Stress > 0 {
 		return runC05Stress(c)
 	}
-	r := newE1(c)
+	var extra []netty.Handler
+	if c.C05 != nil && c.C05.Idle {
+		extra = []netty.Handler{netty.ReadIdleHandler(time.Hour), netty.WriteIdleHandler(time.Hour)}
+	}
+	r := newE1(c, extra...)
+	if len(extra) > 0 {
+		r.cls.Add("shipped-idle-handlers-in-pipeline")
+	}
 	defer func() { out.Classes = r.cls.List() }()
 	r.execute()
 	if r.incon != "" {
